@@ -35,7 +35,7 @@ TOKEN_MUST_REJECT = {
 
 # what uuid.Parse (google/uuid v1.6.0) accepts — an independent re-statement for the oracle (bytes; `.` = any byte, DOTALL)
 _C = rb"[0-9a-fA-F]{8}-[0-9a-fA-F]{4}-[0-9a-fA-F]{4}-[0-9a-fA-F]{4}-[0-9a-fA-F]{12}"
-JTI_RE = re.compile(rb"\A(?:" + _C + rb"|[uU][rR][nN]:[uU][uU][iI][dD]:" + _C + rb"|." + _C + rb".|[0-9a-fA-F]{32})\Z", re.DOTALL)
+JTI_RE = re.compile(rb"\A(?:" + _C + rb"|[uU][rR][nN]:[uU][uU][iI][dD]:" + _C + rb"|\{" + _C + rb"\}|[0-9a-fA-F]{32})\Z", re.DOTALL)
 
 
 def first_seg(path):
@@ -434,7 +434,7 @@ def token_part(ctx, out):
             cls_sig = "lifetime-too-long"
         elif res == "granted" and op["tok"]["claims"].get("jtis") is not None and not JTI_RE.match(bytes.fromhex(op["tok"]["claims"]["jtis"])):
             why = (f"granted although its token id {bytes.fromhex(op['tok']['claims']['jtis'])[:80]!r} is not a UUID "
-                   "(canonical 8-4-4-4-12, urn:uuid: + canonical, one byte + canonical + one byte, or 32 hex digits)")
+                   "(canonical 8-4-4-4-12, urn:uuid: + canonical, {canonical}, or 32 hex digits)")
             cls_sig = "jti-not-uuid"
         elif res == "granted" and 0 < op.get("kbits", 0) < 2048:
             why = f"granted although the signing key is an RSA key with a {op['kbits']}-bit modulus (authorised RSA keys have at least 2048 bits)"
